@@ -21,6 +21,7 @@ import (
 type Case struct {
 	Mode    string     `json:"mode"`   // "ci" | "ctl"
 	Global  string     `json:"global"` // --rate-limiter of the gateway: "", "local", "remote"
+	Skip    bool       `json:"skip,omitempty"` // ci: ClusterInfo built with neither rest config nor health check (skipSyncEndpoints)
 	History []WObj     `json:"history,omitempty"`
 	Ops     []COp      `json:"ops,omitempty"`
 	Probes  []mg.Attrs `json:"probes"`
@@ -176,6 +177,9 @@ func runCI(c *rig.Ctx, cs Case) verdict {
 		return verdict{kind: "diff", class: "c11.harness.restconfig", what: "cannot build the rest config of the first version: " + err.Error()}
 	}
 	long := clusters.NewEmptyClusterInfo(first.Name, restCfg, cheapHealthCheck, cs.Global, nil)
+	if cs.Skip {
+		long = clusters.NewEmptyClusterInfo(first.Name, nil, nil, cs.Global, nil)
+	}
 	defer stopCluster(long)
 
 	reals := make([]stepReal, 0, len(cs.History))
@@ -215,7 +219,11 @@ func runCI(c *rig.Ctx, cs Case) verdict {
 		var fci *clusters.ClusterInfo
 		var ferr error
 		var fp bool
-		if sr.Outcome == "ok" {
+		if cs.Skip {
+			fobj := o.Real(fmt.Sprint(i + 1))
+			fci = clusters.NewEmptyClusterInfo(fobj.Name, nil, nil, cs.Global, nil)
+			_, fp = rig.Recover(func() { ferr = fci.Sync(fobj) })
+		} else if sr.Outcome == "ok" {
 			_, fp = rig.Recover(func() { fci, ferr = clusters.CreateClusterInfo(o.Real(fmt.Sprint(i+1)), cheapHealthCheck, cs.Global, nil) })
 		} else {
 			fobj := o.Real(fmt.Sprint(i + 1))
@@ -269,7 +277,7 @@ func runCI(c *rig.Ctx, cs Case) verdict {
 	for _, a := range cs.Probes {
 		probes = append(probes, a.JSON())
 	}
-	req := map[string]interface{}{"env": modelEnv(), "conn": map[string]interface{}{"global": rig.Hex(cs.Global), "skip": false},
+	req := map[string]interface{}{"env": modelEnv(), "conn": map[string]interface{}{"global": rig.Hex(cs.Global), "skip": cs.Skip},
 		"history": hist, "eps": rig.HexList(u.Eps), "names": rig.HexList(u.Names), "probes": probes}
 	var ms []mStep
 	if err := c.Model("C11.run", req, &ms); err != nil {
